@@ -26,7 +26,9 @@ Idx == 0..WordMax(W)
 Ops1 == {"get", "get_from", "get_up_to", "slice_from", "slice_up_to", "split_at", "split_at_mut"}
 Ops2 == {"get_range", "slice_range"}
 OpsN == {"as_chunks", "as_rchunks", "try_into_array"}
-Ops  == Ops1 \cup Ops2 \cup OpsN
+\* the pattern-matching accessors that konst still provides (only the `_mut` ones; std has the others in const)
+Ops0 == {"first_mut", "last_mut", "split_first_mut", "split_last_mut"}
+Ops  == Ops1 \cup Ops2 \cup OpsN \cup Ops0
 
 Win(off, n) == <<off, n>>
 Whole(len)  == Win(0, len)
@@ -51,6 +53,11 @@ AsChunks(len, N)     == [arrs |-> len \div N, awin |-> Norm(Win(0, (len \div N) 
 AsRChunks(len, N)    == [arrs |-> len \div N, awin |-> Norm(Win(len % N, (len \div N) * N)),
                          rem |-> Norm(Win(0, len % N))]
 TryIntoArray(len, N) == IF len = N THEN Ok(Whole(len)) ELSE Err(1)
+\* element index, or <<element index, window of the rest>>
+FirstMut(len)        == IF len > 0 THEN Some(0) ELSE None
+LastMut(len)         == IF len > 0 THEN Some(len - 1) ELSE None
+SplitFirstMut(len)   == IF len > 0 THEN Some(<<0, Norm(Win(1, len - 1))>>) ELSE None
+SplitLastMut(len)    == IF len > 0 THEN Some(<<len - 1, Norm(Win(0, len - 1))>>) ELSE None
 
 Ref(op, len, a, b) ==
     CASE op = "get"         -> Get(len, a)
@@ -64,6 +71,10 @@ Ref(op, len, a, b) ==
       [] op = "as_chunks"   -> AsChunks(len, a)
       [] op = "as_rchunks"  -> AsRChunks(len, a)
       [] op = "try_into_array" -> TryIntoArray(len, a)
+      [] op = "first_mut"       -> FirstMut(len)
+      [] op = "last_mut"        -> LastMut(len)
+      [] op = "split_first_mut" -> SplitFirstMut(len)
+      [] op = "split_last_mut"  -> SplitLastMut(len)
 
 -----------------------------------------------------------------------------
 (* M *)
@@ -79,6 +90,7 @@ Init ==
     /\ \/ esz \in Sizes /\ len \in Lens /\ len * esz <= IWordMax(W)
        \/ esz = 0 /\ len \in ZstLens
     /\ IF op \in OpsN THEN a \in Ns /\ b = 0
+       ELSE IF op \in Ops0 THEN a = 0 /\ b = 0
        ELSE IF op \in Ops2 THEN a \in Idx /\ b \in Idx
        ELSE a \in Idx /\ b = 0
     /\ cur = Whole(len) /\ stage = 1 /\ ghost = <<0, 0>> /\ pc = "guard" /\ res = None /\ res2 = None
@@ -150,6 +162,14 @@ Direct ==
          [] op = "try_into_array" ->
               IF len = a THEN res' = Ok(Whole(len)) /\ ghost' = <<0, a>> /\ pc' = "unsafe" /\ UNCHANGED res2
               ELSE res' = Err(1) /\ pc' = "done" /\ UNCHANGED <<ghost, res2>>
+         [] op \in Ops0 ->
+              \* slice patterns `[first, rem @ ..]` / `[rem @ .., last]`: no unsafe code
+              /\ res' = IF len = 0 THEN None
+                        ELSE CASE op = "first_mut" -> Some(0)
+                               [] op = "last_mut" -> Some(len - 1)
+                               [] op = "split_first_mut" -> Some(<<0, Win(1, len - 1)>>)
+                               [] op = "split_last_mut" -> Some(<<len - 1, Win(0, len - 1)>>)
+              /\ pc' = "done" /\ UNCHANGED <<ghost, res2>>
 
 Next == Guard \/ AfterUnsafe \/ Chain \/ Direct
 Spec == Init /\ [][Next]_vars
@@ -167,6 +187,7 @@ NormRes(r) ==
     CASE op \in {"get_from", "get_up_to", "get_range"} -> IF IsSome(r) THEN Some(Norm(r.some)) ELSE None
       [] op \in {"slice_from", "slice_up_to", "slice_range"} -> Norm(r)
       [] op \in {"as_chunks", "as_rchunks"} -> [arrs |-> r.arrs, awin |-> Norm(r.awin), rem |-> Norm(r.rem)]
+      [] op \in {"split_first_mut", "split_last_mut"} -> IF IsSome(r) THEN Some(<<r.some[1], Norm(r.some[2])>>) ELSE None
       [] OTHER -> r
 
 \* the value the caller observes
